@@ -71,6 +71,11 @@ class BoolConst(Expr):
         self.v = v
 
     def lex(self, g):
+        k = g.rng.random()
+        if k < 0.15:
+            return [kw("BOOL"), G, sym("#"), G, kw("TRUE" if self.v else "FALSE")]
+        if k < 0.25:
+            return [kw("BOOL"), G, sym("#"), G, lit("1" if self.v else "0")]
         return [kw("TRUE" if self.v else "FALSE")]
 
     def tree(self):
